@@ -30,6 +30,7 @@ typedef struct {
 	sem_t sem;
 	pthread_t tid;
 	volatile int finished;
+	volatile int at_barrier;		/* parked at a BARRIER step until every live thread has reached one */
 	char *out;
 	size_t out_len;
 	sim_dev_t dev;
@@ -49,14 +50,29 @@ static __thread int my_index = -1;
 
 static int pick_target(int want) {
 	int live[NTHR], nl = 0;
-	for (int i = 0; i < NTHR; i++) { if (T[i].used && !T[i].finished) live[nl++] = i; }
+	for (int i = 0; i < NTHR; i++) { if (T[i].used && !T[i].finished && !T[i].at_barrier) live[nl++] = i; }
 	if (nl == 0) return -1;
 	return live[((want % nl) + nl) % nl];
 }
 
 /* Chooses who runs next and for how long; returns the thread index or -1 if all are done. */
+/* When every live thread is parked at a barrier, the barrier opens. */
+static int barrier_open_if_complete(void) {
+	int arriving = 0, parked = 0;
+	for (int i = 0; i < NTHR; i++) {
+		if (!T[i].used || T[i].finished) continue;
+		if (T[i].at_barrier) parked++; else arriving++;
+	}
+	if (arriving == 0 && parked > 0) {
+		for (int i = 0; i < NTHR; i++) T[i].at_barrier = 0;
+		return 1;
+	}
+	return 0;
+}
+
 static int next_slice(void);
 static int next_slice(void) {
+	(void)barrier_open_if_complete();
 	if (seg_pos < nsegs && segs[seg_pos].t == -2) {
 		if (segs[seg_pos].n > 0) {
 			segs[seg_pos].n--;
@@ -93,6 +109,26 @@ static void hand_over(int self, int finished) {
 	}
 }
 
+/* BARRIER step of a script: the threads are aligned at this point of their scripts whatever their initialisation
+ * cost; the plan's next segments (a lag, round-robin slices) then apply from an aligned start. */
+static void barrier_wait(int self) {
+	if (!sched_on || self != cur) return;
+	T[self].at_barrier = 1;
+	if (!barrier_open_if_complete()) {
+		/* the baton goes to a thread that still has to arrive, with an unbounded budget */
+		int t = pick_target(0);
+		budget = 0x7fffffffffffffffL;
+		n_switch++;
+		cur = t;
+		sem_post(&T[t].sem);
+		sem_wait(&T[self].sem);
+		return;
+	}
+	/* last to arrive: the plan decides who runs next */
+	budget = 0;
+	hand_over(self, 0);
+}
+
 void __sanitizer_cov_trace_pc(void) {
 	if (!sched_on || my_index < 0 || my_index != cur) return;
 	n_blocks++;
@@ -121,6 +157,7 @@ static void *thread_main(void *arg) {
 	}
 	for (int i = 0; i < me->nlines; i++) {
 		int n = plan_split(me->lines[i], tok, 16);
+		if (n > 0 && !strcmp(tok[0], "BARRIER")) { barrier_wait(idx); continue; }
 		if (n > 0) cs_step(tok, n);
 	}
 	tr_printf("CLEAN rc=%d\n", core_clean() != RLC_OK);
